@@ -67,3 +67,57 @@ func ReadResponseScope(resp *dns.Msg) (netip.Prefix, bool) {
 	}
 	return netip.Prefix{}, false
 }
+
+// ResponseEchoes reports whether resp is usable as the answer to a query
+// that carried the ECS source prefix `source` (RFC 7871 §7.3): if the
+// response has an EDNS0_SUBNET option, its FAMILY and the first
+// SOURCE PREFIX-LENGTH bits (as sent) of ADDRESS must be the ones that
+// were sent — "otherwise the response MUST be dropped" (§11.2: a
+// mismatching echo is what an off-path forgery, or a server answering
+// for somebody else's subnet, looks like).
+//
+// A response without OPT, or without the option, passes: the server
+// simply does not do ECS and ReadResponseScope treats it as global.
+// An invalid `source` passes too — nothing was sent, nothing to echo.
+//
+// ReadResponseScope builds the cache scope from the ECHOED address, so
+// the cache must ask this first: an answer obtained for one subnet
+// would otherwise be keyed on — and served to — whichever subnet the
+// option names.
+func ResponseEchoes(resp *dns.Msg, source netip.Prefix) bool {
+	if resp == nil || !source.IsValid() {
+		return true
+	}
+	opt := resp.IsEdns0()
+	if opt == nil {
+		return true
+	}
+	for _, o := range opt.Option {
+		sub, ok := o.(*dns.EDNS0_SUBNET)
+		if !ok {
+			continue
+		}
+		addr, ok := ipToAddr(sub.Address)
+		if !ok {
+			return false
+		}
+		switch sub.Family {
+		case 1:
+			if !addr.Is4() {
+				return false
+			}
+		case 2:
+			if !addr.Is6() {
+				return false
+			}
+		default:
+			return false
+		}
+		echoed, err := addr.Prefix(source.Bits())
+		if err != nil {
+			return false
+		}
+		return echoed == source.Masked()
+	}
+	return true
+}
